@@ -259,8 +259,6 @@ def _vtalarm(signum, frame):
     raise _CpuTimeout()
 
 
-
-
 @contextlib.contextmanager
 def cpu_limit(seconds):
     """Like core.time_limit but counts the CPU time of this process, so a loaded machine cannot fake a hang."""
@@ -344,11 +342,38 @@ def fids_of(d):
     return [M.DEV_NAMES[b] for b in sorted(M.DEV_NAMES) if d & b]
 
 
-def pick(survivors, order):
-    for d in order:
-        if d in survivors:
+_OPEN = None
+
+
+def open_bits():
+    """Bit set of the deviation switches listed as open findings (read-only file)."""
+    global _OPEN
+    if _OPEN is None:
+        f = core.Findings()
+        _OPEN = 0
+        for b, fid in M.DEV_NAMES.items():
+            if f.is_open(fid):
+                _OPEN |= b
+    return _OPEN
+
+
+def pick(survivors):
+    """survivors: deviation sets (ordered by size) whose prediction equals the complete observation.
+    The explanation reported is a smallest one; among the smallest, one that uses only open findings is
+    preferred (two switches can predict the same results on one history)."""
+    if not survivors:
+        return None
+    d0 = survivors[0]
+    if d0 == 0:
+        return 0
+    ob = open_bits()
+    n = popcount(d0)
+    for d in survivors:
+        if popcount(d) != n:
+            break
+        if d & ~ob == 0:
             return d
-    return None
+    return d0
 
 
 def judge_history(t, charsub, reserved, history, sp, long_family=False):
@@ -361,9 +386,10 @@ def judge_history(t, charsub, reserved, history, sp, long_family=False):
         return 'violation', [], exp, obs, '%s (template %r)' % (bad, spec)
     if obs == exp:
         return 'ok', [], exp, obs, ''
-    for d in dev_sets(t, charsub, long_family):
-        if d and M.run(cfg, d, [bindings(e) for e in history]) == obs:
-            return 'known', fids_of(d), exp, obs, 'template %r: results equal the model with %s' % (spec, '+'.join(fids_of(d)))
+    hb = [bindings(e) for e in history]
+    d = pick([d for d in dev_sets(t, charsub, long_family) if d and M.run(cfg, d, hb) == obs])
+    if d:
+        return 'known', fids_of(d), exp, obs, 'template %r: results equal the model with %s' % (spec, '+'.join(fids_of(d)))
     n = 0
     while n < len(exp) and n < len(obs) and exp[n] == obs[n]:
         n += 1
@@ -393,7 +419,7 @@ def make_case(block, history):
     return c
 
 
-def past_static(cfg, strict_before, t):
+def past_static(cfg, strict_before):
     """Non-trivial: the request reaches a candidate that carries a variable or $num."""
     spos = strict_before[0]
     rest = cfg.static[spos:]
@@ -406,11 +432,6 @@ def past_static(cfg, strict_before, t):
 # one block = one configuration, searched breadth-first to the depth bound
 # ---------------------------------------------------------------------------------------------------
 def run_block(block):
-    rep = _run_block(block)
-    return rep
-
-
-def _run_block(block):
     import time
     cpu0 = time.process_time()
     rep = _search(block)
@@ -447,9 +468,8 @@ def _search(block):
                 rep.traces += 1
                 rep.transitions += 1
                 strict_before = models[0][1] if models and models[0][0] == 0 else None
-                nontrivial = True if strict_before is None else past_static(cfg, strict_before, t)
+                nontrivial = True if strict_before is None else past_static(cfg, strict_before)
                 rep.case(key=hash((cfgh, h2)), nontrivial=nontrivial, outcome=hash((cfgh, tuple(obs))))
-                case = None
                 if not bad and tuple(obs[:-1]) != obs_before:
                     rep.violation(make_case(block, h2), list(obs_before), obs[:-1],
                                   'replaying the same prefix on a fresh object gave different results')
@@ -482,7 +502,7 @@ def _search(block):
                                   'request %d differs from the statement-derived model and from every named deviation'
                                   % len(h2))
                     continue            # the history ends at a violation
-                d0 = new_models[0][0]   # minimal surviving explanation
+                d0 = pick([d for d, _ in new_models])   # minimal surviving explanation
                 if d0 == 0:
                     rep.count('ok')
                 else:
